@@ -39,6 +39,8 @@ Record st := mkst {
 }.
 
 Definition len (l : list Z) : Z := Z.of_nat (length l).
+(* list reversal in linear time (List.rev is quadratic); equal to rev by List.rev_alt *)
+Definition frev (l : list Z) : list Z := rev_append l [].
 
 (* a store of n bytes at p is inside the buffer *)
 Definition inside (s : st) (n : Z) : bool := (0 <=? p s) && (p s + n <=? size s).
@@ -216,7 +218,7 @@ Definition init (C : cfg) (m : pmode) (sz : Z) : st :=
    (file content followed by the unflushed bytes), zero termination, and whether a store went outside *)
 Record result := mkres { r_ret : Z; r_text : list Z; r_term : bool; r_viol : bool; r_err : Z; r_trace : list Z }.
 Definition observe (s : st) : result :=
-  mkres (if err s =? 0 then total s + p s else -1) (rev (cur s ++ out s)) (term s) (viol s) (err s) (rev (tr s)).
+  mkres (if err s =? 0 then total s + p s else -1) (frev (cur s ++ out s)) (term s) (viol s) (err s) (frev (tr s)).
 
 Definition cfg_fixed (r : Z) : cfg := mkcfg r true true.      (* the repaired code *)
 Definition cfg_current (r : Z) : cfg := mkcfg r false false.  (* the pinned tree *)
